@@ -48,6 +48,7 @@ func run(r *lib.Run) {
 		"starting table, target {random, a peer id, self}, release policy of the logical scheduler {enumerated base-3 choice prefix of depth 4 over fixed graphs, random, fifo, lifo, closest-first, farthest-first}, cancellation step); " +
 		"the real lookup runs over a real Table with a monitor-owned query function that blocks until the scheduler releases it. " +
 		"Part B: case = (3..12 scripted adversaries on the in-memory network answering FINDCONTENT with content / ENR lists / garbage / empty / nothing / uTP transfer, reply delays, starting table) against a real node's ContentLookup, plus Lookup over FINDNODES. " +
+		"Directed: a content answer cancels the lookup while the lookup goroutine is held (verif yield point) in the middle of digesting another reply, and a third peer's ENR answer arrives afterwards. " +
 		"distinct = different (world, completion order of the released queries) resp. (script, set of peers asked, outcome); non-trivial = the lookup issued at least one query and its log and result were judged by the oracle")
 	r.Assume("reference metric: XOR of node ids compared as big-endian 256-bit integers; expected result of an uncancelled node lookup = the 16 closest ids of (starting table content ∪ every non-nil node returned by a query), compared by id only (which record of an id is kept is not decided by the statement)")
 	r.Assume("a query is in flight at least from the monitor's start number to its end number (both taken inside the query function), so >3 overlapping logged intervals imply >3 queries in flight")
@@ -61,6 +62,13 @@ func run(r *lib.Run) {
 	go func() { defer wg.Done(); partA(r) }()
 	go func() { defer wg.Done(); partB(r) }()
 	wg.Wait()
+	// directed schedules through the process-global lookup yield point: one at a time, nothing else running
+	for i := 0; i < r.Pick(4, 40); i++ {
+		directedCancelDuringDigest(r, i)
+	}
+	if r.Counter("directed_late_answer_delivered") == 0 {
+		r.Warn("directed cancel-during-digest schedule never delivered its late answer")
+	}
 }
 
 // ---------------------------------------------------------------------------------------------
